@@ -7,6 +7,7 @@ import (
 	"fmt"
 	"math/rand"
 	"sync"
+	"sync/atomic"
 
 	"github.com/Comcast/sheens/match"
 
@@ -292,13 +293,58 @@ func conc(cfg fw.Config, rec *fw.Rec) {
 		rec.Nontrivial(fw.Canon([]interface{}{"conc", mc.Pattern, mc.Message}))
 	}
 	rec.SetExtra("concurrent_goroutines_per_round", G)
+	// deeply nested (but legal) patterns matched from many goroutines at once: the result
+	// must be what the same match gives alone, whatever else is being matched meanwhile
+	for _, depth := range []int{500, 3000} {
+		var pat, msg interface{} = "?x", map[string]interface{}{"leaf": 1.0, "other": "y"}
+		for i := 0; i < depth; i++ {
+			if i%2 == 0 {
+				pat = map[string]interface{}{"a": pat}
+				msg = map[string]interface{}{"a": msg, "pad": float64(i)}
+			} else {
+				pat = []interface{}{pat}
+				msg = []interface{}{msg}
+			}
+		}
+		o0, bss0, p0 := eval(rec, fmt.Sprintf("deep pattern, depth %d, alone", depth), pat, msg, match.NewBindings())
+		if p0 {
+			return
+		}
+		want := fmt.Sprint(o0, len(bss0))
+		var wg sync.WaitGroup
+		var bad int32
+		for g := 0; g < 32; g++ {
+			wg.Add(1)
+			go func() {
+				defer wg.Done()
+				for k := 0; k < 10; k++ {
+					o, bss, p := eval(rec, fmt.Sprintf("deep pattern, depth %d, concurrent", depth), pat, msg, match.NewBindings())
+					if p {
+						atomic.AddInt32(&bad, 1)
+						return
+					}
+					if got := fmt.Sprint(o, len(bss)); got != want {
+						if atomic.AddInt32(&bad, 1) == 1 {
+							rec.Violation("C03:concurrent-differs:deep", fmt.Sprintf("a pattern nested %d levels deep matched from 32 goroutines at once gives %s; alone it gives %s", depth, got, want), map[string]interface{}{"depth": depth})
+						}
+						return
+					}
+				}
+			}()
+		}
+		wg.Wait()
+		rec.Eval(320)
+		if bad == 0 {
+			rec.Bucket("concurrent_deep_patterns_agree")
+		}
+	}
 }
 
 func Run(cfg fw.Config, rec *fw.Rec) {
-	rec.Rule = "each case is evaluated R times (48 quick / 192 thorough) with pattern, message and bindings rebuilt each time with a different map insertion order (all permutations of the top-level pattern map when it has 2-3 keys, random for nested maps); the canonical multiset of results and error/non-error outcome must coincide, inputs must be deep-equal to their snapshots after every call, results must be distinct map objects; concurrent part: 32 goroutines x one shared pattern object under -race; non-trivial = some evaluation returned a result; distinct by canonical (pattern,message,bindings)"
+	rec.Rule = "each case is evaluated R times (48 quick / 192 thorough) with pattern, message and bindings rebuilt each time with a different map insertion order (all permutations of the top-level pattern map when it has 2-3 keys, random for nested maps); the canonical multiset of results and error/non-error outcome must coincide, inputs must be deep-equal to their snapshots after every call, results must be distinct map objects; concurrent part: 32 goroutines x one shared pattern object under -race, plus patterns nested 500 and 3000 levels deep matched by 32 goroutines at once; non-trivial = some evaluation returned a result; distinct by canonical (pattern,message,bindings)"
 	rec.Assume = []string{"Go iterates a small map in a rotation of its insertion order: varying insertion order plus repetition covers the iteration orders of maps with <= 8 keys", "the race detector reports only races that occur in the produced interleavings"}
 	if cfg.Part == "conc" {
-		rec.Required = []string{"concurrent_rounds", "concurrent_rounds_sharing_a_message"}
+		rec.Required = []string{"concurrent_rounds", "concurrent_rounds_sharing_a_message", "concurrent_deep_patterns_agree"}
 		conc(cfg, rec)
 		return
 	}
